@@ -368,6 +368,10 @@ func runC10(c *Ctx) {
 					acc = a
 				}
 			}
+			// the running hash may live in a loop-carried value instead of a variable cell
+			if ph, ok := ret.Results[0].(*ssa.Phi); ok && acc == nil {
+				acc = ph
+			}
 		}
 		isElemAlloc := func(v ssa.Value) bool {
 			a, ok := v.(*ssa.Alloc)
@@ -401,17 +405,43 @@ func runC10(c *Ctx) {
 						if isElemAlloc(src) {
 							fromElem = true
 						}
+						// the two halves may be chosen into locals first (left, right := hash, it / swapped)
+						if sv, ok := src.(ssa.Value); ok && sv != nil {
+							if ssau.DependsOn(sv, func(x ssa.Value) bool { return x == ssa.Value(acc) }) {
+								fromAcc = true
+							}
+							if ssau.DependsOn(sv, func(x ssa.Value) bool {
+								if isElemAlloc(x) {
+									return true
+								}
+								u, ok := x.(*ssa.UnOp)
+								if !ok || u.Op != token.MUL {
+									return false
+								}
+								ia, ok := u.X.(*ssa.IndexAddr)
+								return ok && paramNamed(ia.X, "merkleBranch")
+							}) {
+								fromElem = true
+							}
+						}
 					}
 				}
 				if st, ok := in.(*ssa.Store); ok && st.Addr == acc && st.Val == ci.Value() {
 					stored = true
 				}
 			}
+			if ph, ok := acc.(*ssa.Phi); ok {
+				for _, e := range ph.Edges {
+					if e == ci.Value() {
+						stored = true
+					}
+				}
+			}
 			if !(fromAcc && fromElem && stored) {
 				okAll = false
 			}
 		}
-		c.R.Check("D-slot", "GetMerkleRoot|each level hashes accumulator and branch element", okAll && nh >= 2, c.pos(g.Pos()), fmt.Sprintf("%d hash call(s) in the level loop, each over a buffer copied from the running hash and the current branch element, result stored back to the running hash", nh))
+		c.R.Check("D-slot", "GetMerkleRoot|each level hashes accumulator and branch element", okAll && nh >= 1, c.pos(g.Pos()), fmt.Sprintf("%d hash call(s) in the level loop, each over a buffer copied from the running hash and the current branch element, result stored back to the running hash", nh))
 	}
 
 	// T-sentinel
@@ -477,7 +507,7 @@ func keysInt(m map[int64]bool) []int64 {
 func rangesWholeParam(fn *ssa.Function, p string) bool {
 	for _, i := range ssau.Ifs(fn) {
 		b, ok := i.Cond.(*ssa.BinOp)
-		if !ok || b.Op != token.LSS || i.Block().Comment != "rangeindex.loop" {
+		if !ok || b.Op != token.LSS || blockComment(i) != "rangeindex.loop" {
 			continue
 		}
 		if isLenOf(func(v ssa.Value) bool { return paramNamed(v, p) })(b.Y) {
